@@ -139,14 +139,19 @@ pub async fn type_definition(
                                         if let Some(entry @ GlobalEntry::Type(t)) =
                                             doc.table.lookup(creator)
                                         {
-                                            return Ok(Some(Location {
-                                                uri,
-                                                range: as_pos_range(
-                                                    &entry
-                                                        .to_text_range(&doc.tokens[t.to_range()]),
-                                                    &doc.text,
-                                                ),
-                                            }));
+                                            // predefined types have no location
+                                            // (the variable itself can be named `int`)
+                                            if !Entry::from(entry).is_default() {
+                                                return Ok(Some(Location {
+                                                    uri,
+                                                    range: as_pos_range(
+                                                        &entry.to_text_range(
+                                                            &doc.tokens[t.to_range()],
+                                                        ),
+                                                        &doc.text,
+                                                    ),
+                                                }));
+                                            }
                                         }
                                     }
                                     /* cannot look up primitive types */
